@@ -122,7 +122,14 @@ class File:
 
         self._h5group = self._root  # to match behaviour of other objects
         self._auto_update_timestamps = auto_update_timestamps
-        self._check_header(mode)
+        try:
+            self._check_header(mode)
+        except Exception:
+            # a refused open must not leave the HDF5 file open: HDF5 shares
+            # the file between handles of one process, so a later ReadOnly
+            # open would inherit the write access of the leaked handle
+            self._h5file.close()
+            raise
         self.mode = mode
         self._data = self._root.open_group("data", create=True)
         self._metadata = self._root.open_group("metadata", create=True)
